@@ -136,14 +136,18 @@ def _find_w_errored(preferred):
         raise RuntimeError('whitebox probe')
     victim.eat_chunk = boom
     main = _cache['wrap.inspectors']
+    empty_before = {k for k, v in _vars(w).items()
+                    if isinstance(v, (set, frozenset, list, tuple, dict)) and len(v) == 0}
     w.read(8)
     hits = []
     for k, v in _vars(w).items():
         if k == main:
             continue
         items = list(v.values()) if isinstance(v, dict) else v
-        if isinstance(items, (set, frozenset, list, tuple)) and len(items) == 1 and \
-                (victim in items or victim.NAME in items):
+        # the victim must be in it; other inspectors may have failed on the probe bytes as well (that is
+        # the tree's business, judged by the correspondence, not a reason to go blind)
+        if isinstance(items, (set, frozenset, list, tuple)) and len(items) >= 1 and \
+                k in empty_before and (victim in items or victim.NAME in items):
             hits.append(k)
     if preferred in hits:
         return preferred
